@@ -315,3 +315,175 @@ var propCookie = vk.Register(&vk.Prop[Case]{Property: property, Name: "roundtrip
 
 func TestRoundTrip(t *testing.T) { propCookie.Run(t) }
 func FuzzRoundTrip(f *testing.F) { propCookie.Fuzz(f) }
+
+// ---- several requests inside one middleware instance at the same time -----------------------------------------------
+
+// ConcCase: 2-3 clients are served by one middleware instance at the same time. Each first has its own cookies set, and
+// then sends them back; the interleaving is chosen by the case (yield points: the handlers and the configured
+// Encryptor/Decryptor, which wrap the package's own EncryptCookie/DecryptCookie).
+type ConcCase struct {
+	Key     []byte
+	Clients [][]Cookie // names are distinct across clients
+	Picks   []int
+}
+
+func checkConc(c ConcCase) vk.Verdict {
+	key := base64.StdEncoding.EncodeToString(c.Key)
+	s := vk.NewSched()
+	app := fiber.New()
+	app.Use(encryptcookie.New(encryptcookie.Config{Key: key,
+		Encryptor: func(v, k string) (string, error) {
+			s.Yield("encrypt<")
+			out, err := encryptcookie.EncryptCookie(v, k)
+			s.Yield("encrypt>")
+			return out, err
+		},
+		Decryptor: func(v, k string) (string, error) {
+			s.Yield("decrypt<")
+			out, err := encryptcookie.DecryptCookie(v, k)
+			s.Yield("decrypt>")
+			return out, err
+		}}))
+	app.Get("/set/:i", func(ctx fiber.Ctx) error {
+		i := fiber.Params[int](ctx, "i")
+		s.Yield("set<")
+		for _, ck := range c.Clients[i] {
+			ctx.Cookie(ck.fiber())
+		}
+		s.Yield("set>")
+		return nil
+	})
+	seen := make([]map[string]string, len(c.Clients))
+	app.Get("/get/:i", func(ctx fiber.Ctx) error {
+		i := fiber.Params[int](ctx, "i")
+		s.Yield("get<")
+		m := map[string]string{}
+		for _, cl := range c.Clients {
+			for _, ck := range cl {
+				if v := ctx.Cookies(ck.Name); v != "" || ctx.Request().Header.Cookie(ck.Name) != nil {
+					m[ck.Name] = strings.Clone(v)
+				}
+			}
+		}
+		seen[i] = m
+		return nil
+	})
+	h := app.Handler()
+	do := func(path string, hdr ...string) *fasthttp.RequestCtx {
+		ctx := &fasthttp.RequestCtx{}
+		ctx.Request.Header.SetMethod("GET")
+		ctx.Request.SetRequestURI(path)
+		for i := 0; i+1 < len(hdr); i += 2 {
+			ctx.Request.Header.Set(hdr[i], hdr[i+1])
+		}
+		h(ctx)
+		return ctx
+	}
+	type outcome struct {
+		setCookies map[string]string // everything the set response carries
+		fail       string
+	}
+	outs := make([]outcome, len(c.Clients))
+	for g := range c.Clients {
+		g := g
+		s.Spawn(g, func() {
+			r := do(fmt.Sprintf("/set/%d", g))
+			got := map[string]string{}
+			r.Response.Header.VisitAllCookie(func(k, v []byte) {
+				fc := fasthttp.AcquireCookie()
+				_ = fc.ParseBytes(v)
+				got[string(k)] = string(fc.Value())
+				fasthttp.ReleaseCookie(fc)
+			})
+			outs[g].setCookies = got
+			var parts []string
+			for _, ck := range c.Clients[g] {
+				parts = append(parts, ck.Name+"="+got[ck.Name])
+			}
+			do(fmt.Sprintf("/get/%d", g), "Cookie", strings.Join(parts, "; "))
+		})
+	}
+	pi := 0
+	res := s.Run(len(c.Clients), func(ready []int) int {
+		p := 0
+		if pi < len(c.Picks) {
+			p = c.Picks[pi]
+		}
+		pi++
+		return p
+	})
+	desc := fmt.Sprintf("%d clients inside one middleware instance at the same time, cookies %v\nschedule: %v", len(c.Clients), c.Clients, s.Trace)
+	if len(res.Panics) > 0 {
+		return vk.Failf("%s\npanic: %s", desc, res.Panics[0])
+	}
+	if res.Deadlock {
+		return vk.Failf("%s\ndeadlock: tasks %v never finished", desc, res.Stuck)
+	}
+	for g, cl := range c.Clients {
+		own := map[string]bool{}
+		for _, ck := range cl {
+			own[ck.Name] = true
+			w, ok := outs[g].setCookies[ck.Name]
+			if !ok {
+				return vk.Failf("%s\nclient %d: the response lacks the cookie %q its handler set (it carries %v)", desc, g, ck.Name, outs[g].setCookies)
+			}
+			if w == string(ck.Value) {
+				return vk.Failf("%s\nclient %d: cookie %q reaches the client as plaintext %q", desc, g, ck.Name, w)
+			}
+			if dec, err := encryptcookie.DecryptCookie(w, key); err != nil || dec != string(ck.Value) {
+				return vk.Failf("%s\nclient %d: cookie %q is on the wire as %q, which decrypts to %q (%v), want %q", desc, g, ck.Name, w, dec, err, ck.Value)
+			}
+			if got := seen[g][ck.Name]; got != string(ck.Value) {
+				return vk.Failf("%s\nclient %d: cookie %q set to %q comes back to the handler as %q", desc, g, ck.Name, ck.Value, got)
+			}
+		}
+		for name := range outs[g].setCookies {
+			if !own[name] {
+				return vk.Failf("%s\nclient %d: the response carries cookie %q, which only another client's handler set", desc, g, name)
+			}
+		}
+		for name := range seen[g] {
+			if !own[name] {
+				return vk.Failf("%s\nclient %d: the handler sees cookie %q=%q, which this client never sent", desc, g, name, seen[g][name])
+			}
+		}
+	}
+	overlap := false
+	open := 0
+	for _, ev := range s.Trace {
+		switch {
+		case strings.HasSuffix(ev, "@encrypt<"), strings.HasSuffix(ev, "@decrypt<"):
+			open++
+			if open > 1 {
+				overlap = true
+			}
+		case strings.HasSuffix(ev, "@encrypt>"), strings.HasSuffix(ev, "@decrypt>"):
+			open--
+		}
+	}
+	v := vk.Verdict{NonTrivial: overlap}
+	if overlap {
+		v.Classes = append(v.Classes, "two-requests-inside-the-cookie-loops-at-once")
+	}
+	return v
+}
+
+var propConc = vk.Register(&vk.Prop[ConcCase]{Property: property, Name: "concurrent", Check: checkConc, Quick: 1500, Thorough: 6000,
+	Gen: func(t *rapid.T) ConcCase {
+		kl := rapid.SampledFrom([]int{16, 24, 32}).Draw(t, "kl")
+		c := ConcCase{Key: rapid.SliceOfN(rapid.Byte(), kl, kl).Draw(t, "key")}
+		n := rapid.IntRange(2, 3).Draw(t, "clients")
+		for i := 0; i < n; i++ {
+			k := rapid.IntRange(1, 2).Draw(t, "ncookies")
+			var cl []Cookie
+			for j := 0; j < k; j++ {
+				cl = append(cl, Cookie{Name: fmt.Sprintf("c%d_%d", i, j), Value: []byte(rapid.StringMatching(`[a-z0-9]{4,12}`).Draw(t, "val")),
+					Attr: rapid.SampledFrom([]string{"", "", "future", "secure"}).Draw(t, "attr")})
+			}
+			c.Clients = append(c.Clients, cl)
+		}
+		c.Picks = rapid.SliceOfN(rapid.IntRange(0, 2), 0, 40).Draw(t, "picks")
+		return c
+	}})
+
+func TestConcurrent(t *testing.T) { propConc.Run(t) }
